@@ -19,6 +19,23 @@ def refresh_all(desc):
     desc.cmds["Call"].inputs = outs
 
 
+def upstream_sources(desc, node, acc=None, seen=None):
+    """Source files (no producer) that `node` transitively depends on."""
+    acc = acc if acc is not None else set()
+    seen = seen if seen is not None else set()
+    if node in seen:
+        return acc
+    seen.add(node)
+    p = desc.producer(node)
+    if p is None:
+        if not is_virtual(node) and not node.endswith("/"):
+            acc.add(node)
+        return acc
+    for i in p.inputs:
+        upstream_sources(desc, i, acc, seen)
+    return acc
+
+
 def downstream(desc, node, acc=None):
     """Nodes that transitively depend on `node`."""
     acc = acc if acc is not None else set()
@@ -42,6 +59,9 @@ class Step:
 
 def gen_step(rnd, sb, desc, counter):
     """Returns a Step that is applicable now (and keeps the description inside the property's premises), or None."""
+    follow = getattr(desc, "_followup", None)
+    if follow:
+        return follow.pop(0)
     shells = [c for c in desc.cmds.values() if c.tool == "shell"]
     prod = produced_files(desc)
     sources = [s for s in desc.sources if desc.producer(s) is None]
@@ -109,7 +129,19 @@ def gen_step(rnd, sb, desc, counter):
                     cur[rnd.randrange(len(cur))] = rnd.choice(outs)
                 elif len(cur) > 1:
                     cur.pop(rnd.randrange(len(cur)))
-                return Step("edit_target", target=t, nodes=sorted(set(cur), key=cur.index))
+                newnodes = sorted(set(cur), key=cur.index)
+                added = [n for n in newnodes if n not in desc.targets[t]]
+                if added and rnd.random() < 0.7:
+                    # the interesting sequence: the target was built before, something upstream of the NEW node changes, the target is rebuilt
+                    ups = upstream_sources(desc, added[0])
+                    fu = [Step("build", target=t, jobs=None)] if rnd.random() < 0.5 else []
+                    if ups:
+                        fu.append(Step("edit_source", path=rnd.choice(sorted(ups)), content="edited for target %d\n" % counter))
+                    fu.append(Step("edit_target", target=t, nodes=newnodes))
+                    fu.append(Step("build", target=t, jobs=rnd.choice([None, 4])))
+                    desc._followup = fu
+                    return fu.pop(0)
+                return Step("edit_target", target=t, nodes=newnodes)
             return Step("edit_target", target="t%d" % counter, nodes=[rnd.choice(outs)])
     if rnd.random() < 0.25 and prod:
         # build a single node through the frontend API instead of a target
